@@ -138,12 +138,12 @@ Section Accepted.
   Proof. intros Hm. unfold created. apply resolve_no_link. apply accepted_no_link. exact Hm. Qed.
 
   (* the file a hard-link member is linked to is not reached through a link of the archive either *)
-  Lemma accepted_hard m t tp :
+  Lemma accepted_hard_no_link m t tp :
     In m ms -> snd m = KHard t -> mtarget d m = Some tp ->
-    resolve false (linkmap d ms) (S (length ms)) (snd tp) = snd tp.
+    find_link false (linkmap d ms) (snd tp) = None.
   Proof.
     intros Hm Ek Et. destruct (In_nth_error _ _ Hm) as [k Hk].
-    apply resolve_no_link. apply find_link_none_gen. intros lp lt rest Hin Hs. exfalso.
+    apply find_link_none_gen. intros lp lt rest Hin Hs. exfalso.
     destruct (linkmap_origin d ms lp lt Hin) as [k' [m' [Hk' [Hsym ->]]]].
     destruct (member_ok_parts _ _ _ _ (accepted_member_ok k m Hk)) as [_ [_ Hh]].
     destruct (Hh t tp Ek Et) as [Hinside Hthrough].
@@ -154,6 +154,11 @@ Section Accepted.
     - apply (inside_flag d _ Hg). exact Hinside.
     - exists rest. apply lstrip_some. exact Hs.
   Qed.
+
+  Lemma accepted_hard m t tp :
+    In m ms -> snd m = KHard t -> mtarget d m = Some tp ->
+    resolve false (linkmap d ms) (S (length ms)) (snd tp) = snd tp.
+  Proof. intros Hm Ek Et. apply resolve_no_link. eapply accepted_hard_no_link; eassumption. Qed.
 
   Lemma accepted_hard_targets : hard_targets d ms = hard_lexical d ms.
   Proof.
